@@ -14,7 +14,8 @@ C20 — executable model of the alarm module (core Lean only):
 The underlying loop timer is the one-shot TimerEvent of C02; here it is a single optional
 deadline on the monotonic clock (milliseconds).  Wall clock and monotonic clock are separate
 inputs of every step (`Env`), so skew and wall-clock adjustments are ordinary inputs.
-The cron alarm delegates to the third-party ccronexpr and is not modelled (see plugin notes).
+The cron alarm delegates to the third-party ccronexpr: `calcNext` uses the proved-earliest reference `Cron.nextCron`;
+ccronexpr itself is transcribed in CCron.lean (parser + cron_next) and compared with the reference by the driver on every case.
 
 The model follows the tree WITH patches/C20-01 (64-bit millisecond conversion), C20-02 (disable()
 forgets the stale target), C20-03 (WorkdayAlarm destructor unsubscribes) and C20-07 (the last served
